@@ -688,7 +688,11 @@ func (ls *LState) raiseError(level int, format string, args ...interface{}) {
 			// that called it, level 2 the caller of that function
 			lv = level
 		}
-		message = fmt.Sprintf("%v %v", ls.where(lv, true), message)
+		pos := ls.where(lv, true)
+		if len(pos) > 0 {
+			// a level without a position (beyond the stack, a tail call) adds nothing, not even the blank
+			message = fmt.Sprintf("%v %v", pos, message)
+		}
 	}
 	if ls.reg.IsFull() {
 		// if the registry is full then it won't be possible to push a value, in this case, force a larger size
